@@ -273,7 +273,19 @@ def _norm(t):
             return _norm(app("And", *args))
         return app(op, *args)
     if t[0] == "each":
-        return ("each", tuple(_norm(l) for l in t[1]), tuple(_norm(g) for g in t[2]), _norm(t[3]))
+        # a binder over range(a, b) with a != 0 ranges over range(0, b - a) with the element shifted by a: one spelling for
+        # `for i in range(1, n): x[i], y[i - 1]` and `for i in range(n - 1): x[i + 1], y[i]`
+        loops, guards, body = list(t[1]), list(t[2]), t[3]
+        for k, l in enumerate(loops):
+            it = l[3]
+            if isinstance(it, tuple) and it and it[0] == "range" and len(it) == 3 and it[1] != K(0):
+                nl = (l[0], l[1], l[2], ("range", K(0), app("-", it[2], it[1])))
+                m = {("elem", l): app("+", ("elem", nl), it[1])}
+                sub_ = lambda x: substitute_loops(substitute_loops(x, m), {l: nl})
+                loops = loops[:k] + [nl] + [sub_(x) for x in loops[k + 1:]]
+                guards = [sub_(g) for g in guards]
+                body = sub_(body)
+        return ("each", tuple(_norm(l) for l in loops), tuple(_norm(g) for g in guards), _norm(body))
     if t[0] == "idx" and len(t) == 3:
         return ("idx", _norm(t[1]), canon_arith(t[2]))
     if t[0] == "range" and len(t) == 3:
@@ -542,6 +554,23 @@ def _canon(t):
                 return ("catom", ca[0], _lin_key(ca[1]))
         if op in ("+", "-", "*", "neg", "Sum"):
             return _lin_canon(t)
+        if op == "If" and len(t) == 5:
+            # If(c, a, b) is If(not c, b, a): one orientation - a Not() is stripped, of an integer comparison and its
+            # negation (l <= 0 / -l + 1 <= 0) the one with the smaller key is kept
+            c_, a_, b_ = t[2], t[3], t[4]
+            while is_app(c_, "Not") and len(c_) == 3:
+                c_, a_, b_ = c_[2], b_, a_
+            ca = canon_atom(("app", c_[1], _canon_leafwise(c_[2]), _canon_leafwise(c_[3]))) \
+                if (is_app(c_) and c_[1] in CMP_OPS and len(c_) == 4 and not is_boolish(c_[2])) else None
+            if ca is not None and ca[0] == "le":
+                neg = ("le", ca[1].scale(-1).add(Lin(const=1)))
+                k1, k2 = ("catom", "le", _lin_key(ca[1])), ("catom", "le", _lin_key(neg[1]))
+                if repr(k2) < repr(k1):
+                    return ("app", "If", k2, _canon(b_), _canon(a_))
+                return ("app", "If", k1, _canon(a_), _canon(b_))
+            if ca is not None and ca[0] == "ne":
+                return ("app", "If", _canon(app("==", c_[2], c_[3])), _canon(b_), _canon(a_))
+            return ("app", "If", _canon(c_), _canon(a_), _canon(b_))
         if op in ("And", "Or"):
             args = sorted({repr(_canon(a)): _canon(a) for a in t[2:]}.items())
             return ("app", op) + tuple(v for _, v in args)
@@ -564,6 +593,14 @@ def _canon_leafwise(t):
     if isinstance(t, tuple) and t and t[0] == "each":
         return ("each", t[1], tuple(sorted((_canon(g) for g in t[2]), key=repr)), _canon(t[3]))
     return _canon(t)
+
+
+def lin_canon_leaves(l: Lin) -> Lin:
+    """the same linear form with canonicalised leaves"""
+    r = Lin(const=l.const)
+    for leaf, c in l.coef.items():
+        r = r.add(Lin({_canon(leaf): c}))
+    return r
 
 
 def _lin_key(l: Lin):
@@ -729,3 +766,131 @@ def linear_equiv(f1, f2, side: Sequence[tuple] = (), dont_care=None, max_atoms=1
                 return False, {"values": {show(k)[:60]: v for k, v in w.items()},
                                "first": v1, "second": v2}
     return True, {"distinguishing assignments refuted": n_checked}
+
+
+# ---------------------------------------------------------------------------
+# guarded sums: Sum(*(body_i for <loops> if guards_i), ...) compared by cases over the guard atoms.
+# Two sums over the same loops denote the same function iff, for every consistent truth assignment of the atoms that
+# occur in their guards, the bodies selected on both sides add up to the same linear form (after substituting x := k for
+# every equality atom `x == k` that is true in the assignment).  Consistency of an assignment is integer feasibility of its
+# arithmetic atoms (Fourier-Motzkin); non arithmetic atoms are independent booleans.
+# ---------------------------------------------------------------------------
+def _flat_guards(gs):
+    out = []
+    for g in gs:
+        if is_app(g, "and") or is_app(g, "And"):
+            out.extend(_flat_guards(g[2:]))
+        else:
+            out.append(g)
+    return out
+
+
+def guarded_sum_equiv(sum1, sum2, max_atoms=10):
+    """(ok, witness) for two `Sum(...)` terms (arguments: plain terms and `each` items)"""
+    from .terms import substitute as _subst
+
+    def items_of(s):
+        s = _norm(_alpha(s, 0))
+        args = s[2:] if is_app(s, "Sum") else (s,)
+        if len(args) == 1 and isinstance(args[0], tuple) and args[0] and args[0][0] == "list":
+            args = args[0][1]
+        groups: Dict[str, List[tuple]] = {}
+        for a in args:
+            if isinstance(a, tuple) and a and a[0] == "each":
+                key = repr(tuple(_canon(l) for l in a[1]))
+                groups.setdefault(key, []).append((tuple(_flat_guards(a[2])), a[3]))
+            else:
+                groups.setdefault("<plain>", []).append(((), a))
+        return groups
+
+    g1, g2 = items_of(sum1), items_of(sum2)
+    if set(g1) != set(g2):
+        return False, {"loops": "the two sums do not range over the same loops", "first": sorted(g1)[:3], "second": sorted(g2)[:3]}
+    for key in g1:
+        it1, it2 = g1[key], g2[key]
+        atoms: List[tuple] = []
+        for gs, body in it1 + it2:
+            conds = list(gs) + [x[1] for x in subterms(body) if isinstance(x, tuple) and x and x[0] == "phi" and len(x) == 4]
+            def atoms_of(g):
+                if is_app(g) and g[1] in ("not", "and", "or"):
+                    for x in g[2:]:
+                        atoms_of(x)
+                    return
+                for a in collect_atoms(g):
+                    if is_app(a) and a[1] in ("not", "and", "or"):
+                        atoms_of(a)
+                    elif a not in atoms:
+                        atoms.append(a)
+            for g in conds:
+                atoms_of(g)
+        ids, cas = [], {}
+        for a in atoms:
+            i, _ = _atom_id(a)
+            if i not in ids:
+                ids.append(i)
+                ca = canon_atom(a)
+                cas[i] = ca if ca is None or ca[0] != "ne" else ("eq", ca[1])
+        if len(ids) > max_atoms:
+            raise Undecided(f"{len(ids)} guard atoms")
+        for bits in itertools.product([False, True], repeat=len(ids)):
+            val = dict(zip(ids, bits))
+
+            def lv(a):
+                if is_app(a) and a[1] in ("not", "and", "or"):
+                    return ev(a)
+                i, neg = _atom_id(a)
+                return (not val[i]) if neg else val[i]
+
+            def ev(g):
+                if is_app(g, "not") and len(g) == 3:
+                    return not ev(g[2])
+                if is_app(g, "and"):
+                    return all(ev(x) for x in g[2:])
+                if is_app(g, "or"):
+                    return any(ev(x) for x in g[2:])
+                return eval_formula(g, lv)
+            # consistency of the arithmetic atoms
+            base, splits, subst = [], [[]], {}
+            for i in ids:
+                ca = cas[i]
+                if ca is None:
+                    continue
+                l = ca[1]
+                if ca[0] == "le":
+                    base.append(l if val[i] else l.scale(-1).add(Lin(const=1)))
+                elif val[i]:
+                    base += [l, l.scale(-1)]
+                    if len(l.coef) == 1:
+                        (leaf, c), = l.coef.items()
+                        if c in (1, -1) and (l.const / -c).denominator == 1:
+                            subst[leaf] = K(int(-l.const / c))
+                else:
+                    splits = [s + [x] for s in splits for x in (l.add(Lin(const=1)), l.scale(-1).add(Lin(const=1)))]
+            feasible = False
+            for extra in splits:
+                sys_ = base + extra
+                leaves = sorted({t for q in sys_ for t in q.coef}, key=show)
+                if not sys_ or _fm_solve(sys_, leaves) is not None:
+                    feasible = True
+                    break
+            if not feasible:
+                continue
+
+            def resolve(b):
+                if not isinstance(b, tuple) or not b:
+                    return b
+                if b[0] == "phi" and len(b) == 4:
+                    return resolve(b[2] if ev(b[1]) else b[3])
+                return tuple(resolve(c) if isinstance(c, tuple) else c for c in b)
+
+            def total(items):
+                r = Lin()
+                for gs, body in items:
+                    if all(ev(g) for g in gs):
+                        body = resolve(body)
+                        r = r.add(lin(_canon_leafwise(_subst(body, subst)) if subst else _canon_leafwise(body)))
+                return _lin_key(r)
+            t1, t2 = total(it1), total(it2)
+            if t1 != t2:
+                return False, {"assignment": {show(a)[:80]: lv(a) for a in atoms}, "first": str(t1)[:200], "second": str(t2)[:200]}
+    return True, {"decided_by": "case analysis over the guard atoms"}
